@@ -319,3 +319,46 @@ def filterload_payload(data, function_count, tweak, flags):
     """filterload: var_bytes filter, nHashFuncs uint32, nTweak uint32, nFlags uint8"""
     return (compact_size(len(data)) + data + function_count.to_bytes(4, "little")
             + tweak.to_bytes(4, "little") + flags.to_bytes(1, "little"))
+
+
+# ---------------------------------------------------------------------------- list-level helpers for clauses
+def gcs_match_all(key, data, queries):
+    return [gcs_match(key, data, q) for q in queries]
+
+
+def set_bits(bit_field):
+    """indices of the non-zero entries of a bit list"""
+    return [i for i in range(len(bit_field)) if bit_field[i]]
+
+
+def bloom_position_set(item, function_count, tweak, size):
+    return sorted(set(bloom_positions(item, function_count, tweak, size)))
+
+
+def bloom_contains_all(data, items, function_count, tweak):
+    ok = True
+    for it in items:
+        if not bloom_contains(data, it, function_count, tweak):
+            ok = False
+    return ok
+
+
+def bits_monotone(before, after):
+    """no bit is cleared"""
+    if len(before) != len(after):
+        return False
+    for i in range(len(before)):
+        if before[i] and not after[i]:
+            return False
+    return True
+
+
+def all_in(xs, allowed):
+    for x in xs:
+        if x not in allowed:
+            return False
+    return True
+
+
+def truthy01(bits):
+    return [1 if b else 0 for b in bits]
